@@ -141,6 +141,10 @@ func signersFor(d *Deployment, r *prng.Rand, topic string) []uint16 {
 func genScriptedParams(r *prng.Rand, maxRounds int) scripted.Params {
 	p := scripted.Params{Rounds: r.Range(1, maxRounds), Bcast: r.Range(1, 3), P2P: r.Range(0, 3), Lockstep: r.Bool(0.3), BodyLen: r.Range(8, 40)}
 	p.RoundBase = uint8(r.Range(0, 127-p.Rounds*3))
+	// a quarter of the backends take simulated time to initialise (see scripted.Params.InitDelayMs)
+	if r.Bool(0.25) {
+		p.InitDelayMs = r.Range(1, 40)
+	}
 	return p
 }
 
